@@ -143,12 +143,14 @@ class TimeMixIn(object):
             text += '.%d' % (dt.microsecond // 1000)
 
         if dt.utcoffset():
-            seconds = dt.utcoffset().seconds
+            # timedelta normalises negative offsets into negative days
+            seconds = dt.utcoffset().days * 86400 + dt.utcoffset().seconds
             if seconds < 0:
                 text += '-'
+                seconds = -seconds
             else:
                 text += '+'
-            text += '%.2d%.2d' % (seconds // 3600, seconds % 3600)
+            text += '%.2d%.2d' % (seconds // 3600, seconds % 3600 // 60)
         else:
             text += 'Z'
 
